@@ -107,6 +107,13 @@ class Gen:
         if s["k"] == "op" and self.tracking() and not self.guard_on():
             self.unguarded.add(s["h"])
             self.unguarded.update(o["h"] for o in s["a"] if "h" in o)
+        if s["k"] in ("setitem", "aug", "uout", "setshape") and self.tracking():
+            # a recorded in-place update: the target's (new) memory is the output of an operation, too
+            self.unguarded.add(s["t"] if "t" in s else s["out"])
+        if s["k"] == "op" and self.tracking() and not view:
+            # the result of a recorded operation: its memory is not locked until it is consumed, so an UNTRACKED in-place
+            # write could change it behind the graph's back (the graph would still differentiate through its creator)
+            self.unguarded.add(s["h"])
         if s["k"] in ("op", "leaf"):
             h = s["h"]
             self.nh = h
@@ -930,7 +937,8 @@ class Gen:
                 if q != reused and q not in self.stale and np.shares_memory(self.np.H[q], R_):
                     self.stale.add(q)
         self.epoch_views.clear()
-        self.unguarded.clear()
+        # (self.unguarded is NOT cleared: a tensor recorded with the guard off may not have been part of the graph that
+        #  this epoch's backward released - its unprotected graph lives on)
 
 
 def gen_program(seed: int, profile: dict) -> list[dict]:
